@@ -706,6 +706,21 @@ func (tb *TB) Eq(a, b *Term) *Term {
 		}
 	}
 	if a.Sort.K == KInt {
+		if d, lo, hi := tb.linDiff(a, b); d != nil {
+			if (hi != nil && hi.Sign() < 0) || (lo != nil && lo.Sign() > 0) {
+				return tb.False
+			}
+			if len(d.ids) == 0 {
+				return tb.Bool(d.c.Sign() == 0)
+			}
+			if pos, neg := tb.linSides(d); pos != a || neg != b {
+				if d2, _, _ := tb.linDiff(pos, neg); d2 == nil {
+					return tb.Eq(pos, neg)
+				}
+			}
+		}
+	}
+	if a.Sort.K == KInt {
 		if v, ok := tb.leafCmp(a, b, func(c int) bool { return c == 0 }); ok {
 			return tb.Bool(v)
 		}
@@ -966,6 +981,19 @@ func (tb *TB) Lt(a, b *Term) *Term {
 		if a.lo != nil && b.hi != nil && a.lo.Cmp(b.hi) >= 0 {
 			return tb.False
 		}
+		if d, lo, hi := tb.linDiff(a, b); d != nil {
+			if hi != nil && hi.Sign() < 0 {
+				return tb.True
+			}
+			if lo != nil && lo.Sign() >= 0 {
+				return tb.False
+			}
+			if pos, neg := tb.linSides(d); pos != a || neg != b {
+				if d2, _, _ := tb.linDiff(pos, neg); d2 == nil {
+					return tb.Lt(pos, neg)
+				}
+			}
+		}
 	}
 	if a.Sort.K == KInt {
 		if v, ok := tb.leafCmp(a, b, func(c int) bool { return c < 0 }); ok {
@@ -992,6 +1020,19 @@ func (tb *TB) Le(a, b *Term) *Term {
 		}
 		if a.lo != nil && b.hi != nil && a.lo.Cmp(b.hi) > 0 {
 			return tb.False
+		}
+		if d, lo, hi := tb.linDiff(a, b); d != nil {
+			if hi != nil && hi.Sign() <= 0 {
+				return tb.True
+			}
+			if lo != nil && lo.Sign() > 0 {
+				return tb.False
+			}
+			if pos, neg := tb.linSides(d); pos != a || neg != b {
+				if d2, _, _ := tb.linDiff(pos, neg); d2 == nil {
+					return tb.Le(pos, neg)
+				}
+			}
 		}
 	}
 	if a.Sort.K == KInt {
